@@ -175,13 +175,25 @@ class BoundTemplate:
                         raise
                 except StopRender:
                     break
+                except ContextDepthError as err:
+                    # Don't carry on in a partial template once the depth limit
+                    # has been hit. In lax mode, templates that include
+                    # themselves more than once would otherwise keep recursing
+                    # from every level. The root template handles the error
+                    # according to the current mode.
+                    if partial:
+                        raise
+                    self.env.error(err, token=node.token)
                 except LiquidError as err:
                     # Raise or warn according to the current mode.
                     self.env.error(err, token=node.token)
                 except Exception as err:  # noqa: BLE001
                     # Like `Environment.from_string`, don't let unexpected
                     # exceptions from tags, filters or drops reach the caller.
-                    self.env.error(_unexpected_render_error(err, node.token))
+                    error = _unexpected_render_error(err, node.token)
+                    if partial and isinstance(error, ContextDepthError):
+                        raise error from err
+                    self.env.error(error)
 
     async def render_with_context_async(
         self,
@@ -214,13 +226,21 @@ class BoundTemplate:
                         raise
                 except StopRender:
                     break
+                except ContextDepthError as err:
+                    # See `render_with_context`.
+                    if partial:
+                        raise
+                    self.env.error(err, token=node.token)
                 except LiquidError as err:
                     # Raise or warn according to the current mode.
                     self.env.error(err, token=node.token)
                 except Exception as err:  # noqa: BLE001
                     # Like `Environment.from_string`, don't let unexpected
                     # exceptions from tags, filters or drops reach the caller.
-                    self.env.error(_unexpected_render_error(err, node.token))
+                    error = _unexpected_render_error(err, node.token)
+                    if partial and isinstance(error, ContextDepthError):
+                        raise error from err
+                    self.env.error(error)
 
     def is_up_to_date(self) -> bool:
         """`False` if the template has bee modified, `True` otherwise."""
